@@ -33,4 +33,26 @@ def assignOutgoing (out : Outgoing) (d : Dest) : (Bool × Nat) × Outgoing :=
   let next := if cur.2 ≥ 0xFFFF then (false, 1) else (cur.1, cur.2 + 1)
   (cur, aset out d next)
 
+/-- one received SD message as far as session handling is concerned -/
+structure RxMsg where
+  sender : Addr
+  mc : Bool
+  flag : Bool
+  sid : Nat
+deriving DecidableEq, Repr, Inhabited
+
+/-- the model run over a whole receive history: the detection verdict per message -/
+def runRecv : Incoming → List RxMsg → List Bool
+  | _, [] => []
+  | inc, m :: r =>
+    let x := checkReceived inc m.sender m.mc m.flag m.sid
+    x.1 :: runRecv x.2 r
+
+/-- the model run over a whole sequence of transmissions: (flag, id) per transmission -/
+def runSend : Outgoing → List Dest → List (Bool × Nat)
+  | _, [] => []
+  | out, d :: r =>
+    let x := assignOutgoing out d
+    x.1 :: runSend x.2 r
+
 end Someip
